@@ -24,6 +24,42 @@ pub fn first_tok(rng: &mut Rng) -> Vec<u8> {
     t
 }
 
+/// a token with double quotes: fully quoted, starting with a quote only, inner quote,
+/// trailing quote, a lone quote, an empty quoted string (the csv layer must quote / unquote them)
+pub fn qtok(rng: &mut Rng) -> Vec<u8> {
+    let body = tok(rng, 1, 5, b"abcXYZ0189 ;,=_-");
+    let mut t = vec![];
+    match rng.below(7) {
+        0 => {
+            t.push(b'"');
+            t.extend_from_slice(&body);
+            t.push(b'"');
+        }
+        1 => {
+            t.push(b'"');
+            t.extend_from_slice(&body);
+        }
+        2 => {
+            t.extend_from_slice(&body);
+            t.push(b'"');
+            t.extend_from_slice(b"c");
+        }
+        3 => {
+            t.extend_from_slice(&body);
+            t.push(b'"');
+        }
+        4 => t.push(b'"'),
+        5 => t.extend_from_slice(b"\"\""),
+        _ => {
+            t.push(b'"');
+            t.extend_from_slice(&body);
+            t.extend_from_slice(b"\"\"");
+            t.extend_from_slice(&body);
+        }
+    }
+    t
+}
+
 pub fn coord(rng: &mut Rng) -> u64 {
     match rng.below(12) {
         0 => 0,
